@@ -43,6 +43,7 @@ func c20Body(t *testing.T, s *sim.Scn, o *sim.Outcome) {
 	sim.QuietLogs()
 	logger := logging.Logger("verif")
 	da := sim.NewSimDA()
+	da.CommitmentIDs = s.Cfg["dups"] == 1
 	disk := sim.NewDisk(nil)
 	id := []byte("c20")
 	startH := uint64(1 + s.Cfg["start"]%3)
@@ -68,7 +69,14 @@ func c20Body(t *testing.T, s *sim.Scn, o *sim.Outcome) {
 		cnt := int(op.A % 7)
 		for j := 0; j < cnt; j++ {
 			txn++
+			if s.Cfg["dups"] == 1 && j > 0 && (op.B+int64(j))%3 == 0 {
+				txn-- // the same blob once more in this height (with commitment-style ids the two share an id)
+				o.Count("duplicate-blobs-in-one-height", 1)
+			}
 			size := []int{1, 10, 40, 120, 200}[int(op.B+int64(j))%5]
+			if s.Cfg["dups"] == 1 {
+				size = []int{10, 40, 120}[int(op.B)%3] // copies must be byte-identical: one size per height
+			}
 			tx := []byte(fmt.Sprintf("t%04d:", txn))
 			for len(tx) < size {
 				tx = append(tx, 'x')
@@ -215,7 +223,7 @@ func c20Body(t *testing.T, s *sim.Scn, o *sim.Outcome) {
 }
 
 func c20Gen(r *rand.Rand, tier string) *sim.Scn {
-	s := &sim.Scn{Cfg: map[string]int64{"start": r.Int64N(3), "drift": r.Int64N(4)}}
+	s := &sim.Scn{Cfg: map[string]int64{"start": r.Int64N(3), "drift": r.Int64N(4), "dups": int64(r.IntN(4) / 3)}}
 	nh := 1 + r.IntN(8)
 	for i := 0; i < nh; i++ {
 		cnt := r.Int64N(7)
